@@ -75,6 +75,10 @@ def make_task(kind, direction, seed, log=None):
     calls = _CALLS
     if kind == "cont3":       # asymmetric bounds, one zero bound on each side
         vs = [ContinuousMultiVariable(name="x", lower_bounds=[0, 0, -5], upper_bounds=[10, 3, 0])]
+    elif kind == "cont3c":    # same space as cont3, another objective (reuse of an instance on a task that shares positions)
+        vs = [ContinuousMultiVariable(name="x", lower_bounds=[0, 0, -5], upper_bounds=[10, 3, 0])]
+    elif kind == "plateau":   # piecewise-constant objective with an exact-zero plateau: ties and zero costs are the norm
+        vs = [ContinuousMultiVariable(name="x", lower_bounds=[-3, -3], upper_bounds=[3, 3])]
     elif kind == "cont3b":    # same dimension, much wider bounds (reuse of an instance on another task)
         vs = [ContinuousMultiVariable(name="x", lower_bounds=[-400, -100, -900], upper_bounds=[100, 700, 50])]
     elif kind == "cont1":
@@ -109,6 +113,10 @@ def _objective(kind, x):
         return (x[0] - 2.0) ** 2 + (x[1] - 1.0) ** 2 + (x[2] + 1.5) ** 2 + 0.25
     if kind == "cont3b":
         return abs(x[0] + 7.0) + abs(x[1] - 30.0) + abs(x[2] + 3.0) + 40.0
+    if kind == "cont3c":
+        return 3.0 * abs(x[0] - 7.0) + (x[1] - 2.5) ** 2 + abs(x[2] + 4.0) + 11.0
+    if kind == "plateau":
+        return float(int(abs(x[0])) + int(abs(x[1])))
     if kind == "cont1":
         return (x[0] - 1.0) ** 2 - 3.0          # negative costs occur
     if kind == "contbig":
@@ -341,6 +349,28 @@ def run_case(case):
     return rec
 
 
+def truth_monitors(task, kind, res):
+    """C01 / C02 / C03 on one result (used for the second run of the relational scenarios)"""
+    out = {}
+    ismax = str(task.minmax) == "max"
+    gens = [g.agents for g in res.evolution]
+    for gi, g in enumerate(gens + [[res.best_solution]]):
+        for a in g:
+            msg = in_space(task, a.position)
+            if msg:
+                out.setdefault("C01", f"generation {gi}: position {a.position!r}: {msg}")
+                continue
+            c = user_cost(task, kind, a.position)
+            if not close(a.cost, c):
+                out.setdefault("C02", f"generation {gi}: cost {a.cost!r} but objective(position) = {c!r} at {a.position!r}")
+    b = res.best_solution
+    if not any(a.position == b.position and close(a.cost, b.cost) for a in gens[-1]):
+        out["C03"] = f"best_solution {b.position!r}/{b.cost!r} is not an agent of the last generation"
+    elif any(((a.cost > b.cost) if ismax else (a.cost < b.cost)) and not close(a.cost, b.cost) for a in gens[-1]):
+        out["C03"] = "an agent of the last generation is strictly better than best_solution"
+    return out
+
+
 # ---- relational scenarios (two runs) ------------------------------------------------------------------------------------------------------------------
 def run_pair(case):
     """scenario in {'repro', 'reuse', 'setcfg', 'duality'}: two complete runs compared"""
@@ -383,6 +413,26 @@ def run_pair(case):
             ref = K(C(**case["cfg_kw"])).optimize(fresh())
             if second.model_dump() != ref.model_dump():
                 rec["monitors"]["C08"] = "optimize() on an instance used before on another task differs from a fresh instance"
+        elif sc == "reuse3":
+            # the earlier run was on a task with the same space and seed but another objective (positions coincide)
+            o = K(C(**case["cfg_kw"]))
+            o.optimize(fresh(kind="cont3c"))
+            t2 = fresh()
+            second = o.optimize(t2)
+            rec["monitors"].update(truth_monitors(t2, case["kind"], second))
+            ref = K(C(**case["cfg_kw"])).optimize(fresh())
+            if second.model_dump() != ref.model_dump():
+                rec["monitors"]["C08"] = "optimize() on an instance used before on a task sharing the search space differs from a fresh instance"
+        elif sc == "reuse_dim":
+            # the earlier run was on a task of another dimension: the second call must still be a valid call
+            o = K(C(**case["cfg_kw"]))
+            o.optimize(fresh(kind="contbig"))
+            t2 = fresh()
+            second = o.optimize(t2)
+            rec["monitors"].update(truth_monitors(t2, case["kind"], second))
+            ref = K(C(**case["cfg_kw"])).optimize(fresh())
+            if second.model_dump() != ref.model_dump():
+                rec["monitors"]["C08"] = "optimize() on an instance used before on a task of another dimension differs from a fresh instance"
         elif sc == "repro0":
             np.random.seed(1)
             a = K(C(**case["cfg_kw"])).optimize(fresh(seed=0))
@@ -462,7 +512,7 @@ def run_pair(case):
 
 def _dispatch(case):
     try:
-        if case.get("scenario") in ("repro", "reuse", "setcfg", "duality", "reuse2", "repro0", "setcfg2", "duality_reuse"):
+        if case.get("scenario") in ("repro", "reuse", "setcfg", "duality", "reuse2", "repro0", "setcfg2", "duality_reuse", "reuse3", "reuse_dim"):
             return run_pair(case)
         return run_case(case)
     except Exception as ex:  # harness failure
@@ -471,7 +521,7 @@ def _dispatch(case):
 
 
 # ---- campaign ----------------------------------------------------------------------------------------------------------------------------------------------
-CONT = ["cont3", "cont1", "contbig", "multiobj", "cont3b"]
+CONT = ["cont3", "cont1", "contbig", "multiobj", "cont3b", "cont3c", "plateau"]
 INTCODED = ["discrete", "binary", "mixed", "perm"]
 
 
@@ -485,7 +535,7 @@ def build_cases(tier, seed):
         base.pop("early_stopping", None)
         scales = [1.0] if tier == "quick" else [1.0, 1.5, 2.0, 3.0]
         cycles = [1, 3] if tier == "quick" else [1, 2, 5]
-        for kind in ["cont3", "cont1", "contbig", "multiobj"] + (["discrete", "perm"] if tier == "quick" else INTCODED):
+        for kind in ["cont3", "cont1", "contbig", "multiobj", "plateau"] + (["discrete", "perm"] if tier == "quick" else INTCODED):
             for direction in ("min", "max"):
                 for mc in cycles:
                     for sc in scales:
@@ -505,7 +555,7 @@ def build_cases(tier, seed):
             cases.append(dict(opt=opt, cfg_name=cfg_name, cfg_kw=kw, kind="cont3", direction="min", seed=seeds[0], mode=mode,
                               workers=workers, scenario="single", scale=1.0))
         # relational scenarios
-        for scn in ("repro", "reuse", "setcfg", "duality", "reuse2", "repro0", "setcfg2", "duality_reuse"):
+        for scn in ("repro", "reuse", "setcfg", "duality", "reuse2", "repro0", "setcfg2", "duality_reuse", "reuse3", "reuse_dim"):
             kw = dict(base, max_cycles=3)
             cases.append(dict(opt=opt, cfg_name=cfg_name, cfg_kw=kw, kind="cont3", direction="min", seed=seeds[0], mode=None,
                               scenario=scn, scale=1.0))
